@@ -107,7 +107,15 @@ func SchedulePromises(config *system.Config, tags map[string]string) gocoro.Coro
 				continue
 			}
 
-			if completion.Store.Results[0].CreatePromise.RowsAffected == 0 {
+			// a routed promise is created together with its task (CreatePromiseAndTask result)
+			var rowsAffected int64
+			if res := completion.Store.Results[0]; res.Kind == t_aio.CreatePromiseAndTask {
+				rowsAffected = res.CreatePromiseAndTask.PromiseRowsAffected
+			} else {
+				rowsAffected = res.CreatePromise.RowsAffected
+			}
+
+			if rowsAffected == 0 {
 				slog.Warn("promise to be scheduled already exists", "promise", commands[i].Id, "schedule", result.Records[i].Id)
 			}
 		}
